@@ -257,6 +257,91 @@ pub struct StdTypes {
     w: std::num::Wrapping<i8>,
 }
 
+/// Field and variant names on both sides of every head-width boundary (23/24, 31/32, 255/256
+/// bytes), ASCII and multi-byte.
+#[derive(Serialize, Deserialize, Debug)]
+pub struct LongNames {
+    #[serde(rename = "a")]
+    n1: u8,
+    #[serde(rename = "abcdefghijklmnopqrstuvw")]
+    n23: u8,
+    #[serde(rename = "abcdefghijklmnopqrstuvwx")]
+    n24: u8,
+    #[serde(rename = "abcdefghijklmnopqrstuvwxy")]
+    n25: u8,
+    #[serde(rename = "abcdefghijklmnopqrstuvwxyz01234")]
+    n31: u8,
+    #[serde(rename = "abcdefghijklmnopqrstuvwxyz012345")]
+    n32: u8,
+    #[serde(rename = "abcdefghijklmnopqrstuvwxyz0123456789_abcdefghijklmnopqrstuvwxyz0123456789_abcdefghijklmnopqrstuvwxyz0123456789_abcdefghijklmnopqrstuvwxyz0123456789_abcdefghijklmnopqrstuvwxyz0123456789_abcdefghijklmnopqrstuvwxyz0123456789_abcdefghijklmnopqrstuvwxyz0123456")]
+    n255: u8,
+    #[serde(rename = "abcdefghijklmnopqrstuvwxyz0123456789_abcdefghijklmnopqrstuvwxyz0123456789_abcdefghijklmnopqrstuvwxyz0123456789_abcdefghijklmnopqrstuvwxyz0123456789_abcdefghijklmnopqrstuvwxyz0123456789_abcdefghijklmnopqrstuvwxyz0123456789_abcdefghijklmnopqrstuvwxyz01234567")]
+    n256: u8,
+    #[serde(rename = "abcdefghijklmnopqrstuvwxyz0123456789_abcdefghijklmnopqrstuvwxyz0123456789_abcdefghijklmnopqrstuvwxyz0123456789_abcdefghijklmnopqrstuvwxyz0123456789_abcdefghijklmnopqrstuvwxyz0123456789_abcdefghijklmnopqrstuvwxyz0123456789_abcdefghijklmnopqrstuvwxyz0123456789_abcdefghijklmnopqrstuvwxyz0123456789_abcd")]
+    n300: u8,
+    #[serde(rename = "é€cdefghijklmnopqrstu")]
+    u24: bool,
+    #[serde(rename = "é€cdefghijklmnopqrstuvwx")]
+    u27: bool,
+    #[serde(rename = "é€cdefghijklmnopqrstuvwxyz01")]
+    u31: bool,
+}
+#[derive(Serialize, Deserialize, Debug)]
+pub enum LongVariants {
+    #[serde(rename = "0")]
+    V0,
+    #[serde(rename = "3")]
+    V1 { x: u8 },
+    #[serde(rename = "abcdefghijklmnopqrstuv0")]
+    V2,
+    #[serde(rename = "abcdefghijklmnopqrstuv3")]
+    V3 { x: u8 },
+    #[serde(rename = "abcdefghijklmnopqrstuvw0")]
+    V4,
+    #[serde(rename = "abcdefghijklmnopqrstuvw1")]
+    V5(u8),
+    #[serde(rename = "abcdefghijklmnopqrstuvw2")]
+    V6(u8, bool),
+    #[serde(rename = "abcdefghijklmnopqrstuvw3")]
+    V7 { x: u8 },
+    #[serde(rename = "abcdefghijklmnopqrstuvwx0")]
+    V8,
+    #[serde(rename = "abcdefghijklmnopqrstuvwx1")]
+    V9(u8),
+    #[serde(rename = "abcdefghijklmnopqrstuvwx2")]
+    V10(u8, bool),
+    #[serde(rename = "abcdefghijklmnopqrstuvwx3")]
+    V11 { x: u8 },
+    #[serde(rename = "abcdefghijklmnopqrstuvwxyz0120")]
+    V12,
+    #[serde(rename = "abcdefghijklmnopqrstuvwxyz0121")]
+    V13(u8),
+    #[serde(rename = "abcdefghijklmnopqrstuvwxyz0122")]
+    V14(u8, bool),
+    #[serde(rename = "abcdefghijklmnopqrstuvwxyz0123")]
+    V15 { x: u8 },
+    #[serde(rename = "abcdefghijklmnopqrstuvwxyz01230")]
+    V16,
+    #[serde(rename = "abcdefghijklmnopqrstuvwxyz01231")]
+    V17(u8),
+    #[serde(rename = "abcdefghijklmnopqrstuvwxyz01232")]
+    V18(u8, bool),
+    #[serde(rename = "abcdefghijklmnopqrstuvwxyz01233")]
+    V19 { x: u8 },
+    #[serde(rename = "abcdefghijklmnopqrstuvwxyz012340")]
+    V20,
+    #[serde(rename = "abcdefghijklmnopqrstuvwxyz012343")]
+    V21 { x: u8 },
+    #[serde(rename = "abcdefghijklmnopqrstuvwxyz0123456789_abcdefghijklmnopqrstuvwxyz0123456789_abcdefghijklmnopqrstuvwxyz0123456789_abcdefghijklmnopqrstuvwxyz0123456789_abcdefghijklmnopqrstuvwxyz0123456789_abcdefghijklmnopqrstuvwxyz0123456789_abcdefghijklmnopqrstuvwxyz0123450")]
+    V22,
+    #[serde(rename = "abcdefghijklmnopqrstuvwxyz0123456789_abcdefghijklmnopqrstuvwxyz0123456789_abcdefghijklmnopqrstuvwxyz0123456789_abcdefghijklmnopqrstuvwxyz0123456789_abcdefghijklmnopqrstuvwxyz0123456789_abcdefghijklmnopqrstuvwxyz0123456789_abcdefghijklmnopqrstuvwxyz0123453")]
+    V23 { x: u8 },
+    #[serde(rename = "abcdefghijklmnopqrstuvwxyz0123456789_abcdefghijklmnopqrstuvwxyz0123456789_abcdefghijklmnopqrstuvwxyz0123456789_abcdefghijklmnopqrstuvwxyz0123456789_abcdefghijklmnopqrstuvwxyz0123456789_abcdefghijklmnopqrstuvwxyz0123456789_abcdefghijklmnopqrstuvwxyz01234560")]
+    V24,
+    #[serde(rename = "abcdefghijklmnopqrstuvwxyz0123456789_abcdefghijklmnopqrstuvwxyz0123456789_abcdefghijklmnopqrstuvwxyz0123456789_abcdefghijklmnopqrstuvwxyz0123456789_abcdefghijklmnopqrstuvwxyz0123456789_abcdefghijklmnopqrstuvwxyz0123456789_abcdefghijklmnopqrstuvwxyz01234563")]
+    V25 { x: u8 },
+}
+
 // shapes that are known not to round-trip (one type per shape)
 #[derive(Serialize, Deserialize, Debug)]
 #[serde(untagged)]
@@ -423,6 +508,8 @@ stype!(Untagged, false, |r| match r.below(8) {
 stype!(Flat, false, |r| Flat { a: g(r), inner: FlatInner { b: g(r), c: g(r), n: g(r) }, z: g(r) });
 stype!(FlatMap, false, |r| FlatMap { id: g(r), rest: (0..r.below(4)).map(|i| (format!("k{}{}", i, small_string(r)), g(r))).collect() });
 stype!(Renamed, true, |r| Renamed { xy: g(r), d: g(r), empty: g(r) });
+stype!(LongNames, true, |r| LongNames { n1: g(r), n23: g(r), n24: g(r), n25: g(r), n31: g(r), n32: g(r), n255: g(r), n256: g(r), n300: g(r), u24: g(r), u27: g(r), u31: g(r) });
+stype!(LongVariants, true, |r| match r.below(26) { 0 => LongVariants::V0, 1 => LongVariants::V1 { x: g(r) }, 2 => LongVariants::V2, 3 => LongVariants::V3 { x: g(r) }, 4 => LongVariants::V4, 5 => LongVariants::V5(g(r)), 6 => LongVariants::V6(g(r), g(r)), 7 => LongVariants::V7 { x: g(r) }, 8 => LongVariants::V8, 9 => LongVariants::V9(g(r)), 10 => LongVariants::V10(g(r), g(r)), 11 => LongVariants::V11 { x: g(r) }, 12 => LongVariants::V12, 13 => LongVariants::V13(g(r)), 14 => LongVariants::V14(g(r), g(r)), 15 => LongVariants::V15 { x: g(r) }, 16 => LongVariants::V16, 17 => LongVariants::V17(g(r)), 18 => LongVariants::V18(g(r), g(r)), 19 => LongVariants::V19 { x: g(r) }, 20 => LongVariants::V20, 21 => LongVariants::V21 { x: g(r) }, 22 => LongVariants::V22, 23 => LongVariants::V23 { x: g(r) }, 24 => LongVariants::V24, _ => LongVariants::V25 { x: g(r) }, }, |s| variant_name(s));
 stype!(StdTypes, false, |r| StdTypes { d: g(r), ip4: g(r), ip: g(r), sa: g(r), r: g(r), res: g(r), nz: g(r), w: g(r) });
 stype!(KfUntaggedUnitVariant, false, |r| if r.bool() { KfUntaggedUnitVariant::N(g(r)) } else { KfUntaggedUnitVariant::Unit }, |s| variant_name(s));
 stype!(KfUntaggedUnitValue, false, |r| if r.bool() { KfUntaggedUnitValue::N(g(r)) } else { KfUntaggedUnitValue::U(()) }, |s| variant_name(s));
@@ -447,7 +534,7 @@ stype_subj!(u8, u16, u32, u64, i8, i16, i32, i64, bool, char, f32, f64, String, 
 macro_rules! for_each_stype {
     ($m:ident) => {
         $m!(Ints); $m!(Scalars); $m!(Texts); $m!(UnitStruct); $m!(Newtype); $m!(TupleStruct); $m!(Nested); $m!(Seqs); $m!(Maps);
-        $m!(Ext); $m!(WithEnums); $m!(IntTag); $m!(AdjTag); $m!(Untagged); $m!(Flat); $m!(FlatMap); $m!(Renamed); $m!(StdTypes);
+        $m!(Ext); $m!(WithEnums); $m!(IntTag); $m!(AdjTag); $m!(Untagged); $m!(Flat); $m!(FlatMap); $m!(Renamed); $m!(LongNames); $m!(LongVariants); $m!(StdTypes);
         $m!(KfUntaggedUnitVariant); $m!(KfUntaggedUnitValue); $m!(KfUntaggedChar); $m!(KfIntTagChar); $m!(KfFlatChar); $m!(KfIntTagUnitField); $m!(KfFlatUnit);
         $m!(u8); $m!(u16); $m!(u32); $m!(u64); $m!(i8); $m!(i16); $m!(i32); $m!(i64); $m!(bool); $m!(char); $m!(f32); $m!(f64); $m!(String); $m!(());
         $m!(Option<u8>); $m!(Option<String>); $m!(Vec<u8>); $m!(Vec<String>); $m!((u8, String)); $m!((i64, bool, f32)); $m!([u16; 1]); $m!([u8; 32]);
